@@ -25,6 +25,7 @@ GENERATORS = [
     ("GenMain.v", "tr_main"),
     ("GenClassify.v", "tr_classify"),
     ("GenFilter.v", "tr_filter"),
+    ("GenMessages.v", "tr_messages"),
 ]
 
 
